@@ -6,6 +6,7 @@ import (
 	"encoding/json"
 	"fmt"
 	"io"
+	"sort"
 
 	proto "github.com/golang/protobuf/proto"
 	"github.com/openacid/low/iohelper"
@@ -828,13 +829,26 @@ func (FramesFaults) Shrink(pl engine.Plan) []engine.Plan {
 	if p.Family == "trunc" || p.Family == "wfail" || p.Family == "rderr" {
 		pts := p.Points
 		if len(pts) == 0 {
+			// materialise the SAME point list the execution uses (all positions
+			// for short streams, the boundary-biased sample for long ones): never
+			// more than a few hundred candidates' worth of sweep
 			total := 0
+			var starts []int
 			for _, m := range p.Msgs {
-				total += 32 + m.Len + 8
+				starts = append(starts, total)
+				total += 32 + len(m.Body())
 			}
-			for k := 0; k <= total; k++ {
-				pts = append(pts, k)
+			hi := total
+			if p.Family == "trunc" {
+				hi = total - 1
 			}
+			if p.Family == "wfail" && len(p.Msgs) > 0 {
+				hi = 32 + len(p.Msgs[0].Body())
+				pts, _ = points(nil, p.Seed, hi, hi, []int{0})
+			} else {
+				pts, _ = points(nil, p.Seed, total, hi, starts)
+			}
+			sort.Ints(pts)
 		}
 		if len(pts) > 1 {
 			q := clone()
